@@ -10,6 +10,7 @@
 //	    mode intb     []int keys, values []int64;  strb: []string keys, values []string
 //	    mode spre|ssuf|swin|smix   []string keys that are substrings of ONE shared string (prefixes / suffixes / windows /
 //	                  prefixes mixed with fresh copies), values []struct
+//	    mode f64 f32 ff    float keys given as float TOKENS (see f64Bits), less = keys[i] < keys[j] on the floats; vf64 vf32: float values
 //	multi <kcap> <vcap> | <mode> <keys> <nv> | ...   several SliceBy calls on the SAME backing arrays (see runMulti)
 //	unique <int|str|pre|suf|win|mix> <elems>     (pre.. = UniqueString on substrings of one shared string)
 //	  -> r <returned slice> b <backing array after the call>
@@ -17,6 +18,7 @@ package main
 
 import (
 	"fmt"
+	"math"
 	"math/bits"
 	"runtime"
 	"strconv"
@@ -282,6 +284,86 @@ func runMulti(c *hx.Ctx, line string) string {
 	return strings.Join(out, " | ")
 }
 
+// float tokens: a script int t stands for one float BIT PATTERN (elements are rendered and compared bitwise, so
+// -0 and +0, and two NaNs with different payloads, are different tokens although == / < cannot tell them apart)
+//
+//	0 -Inf  1 -1  2 -denormal  3 -0  4 +0  5 +denormal  6 +1  7 +Inf  8 NaN(payload 1)  9 NaN(payload 2)  t>=10: float(t)
+//
+// rank (order under <): -Inf < -1 < -denormal < -0 = +0 < +denormal < 1 < 10 < 11 < … < +Inf ; NaN incomparable with all
+var f64Bits = []uint64{0xfff0000000000000, 0xbff0000000000000, 0x8000000000000001, 0x8000000000000000, 0,
+	1, 0x3ff0000000000000, 0x7ff0000000000000, 0x7ff8000000000001, 0x7ff8000000000002}
+var f32Bits = []uint32{0xff800000, 0xbf800000, 0x80000001, 0x80000000, 0, 1, 0x3f800000, 0x7f800000, 0x7fc00001, 0x7fc00002}
+
+func tokF64(t int) float64 {
+	if t < 0 {
+		panic("bad float token")
+	}
+	if t < len(f64Bits) {
+		return math.Float64frombits(f64Bits[t])
+	}
+	return float64(t)
+}
+
+func f64Tok(v float64) int {
+	b := math.Float64bits(v)
+	for t, x := range f64Bits {
+		if x == b {
+			return t
+		}
+	}
+	if t := int(v); t >= len(f64Bits) && math.Float64bits(float64(t)) == b {
+		return t
+	}
+	return -1 // a bit pattern that was never put in
+}
+
+func tokF32(t int) float32 {
+	if t < 0 || t >= 1<<24 {
+		panic("bad float token")
+	}
+	if t < len(f32Bits) {
+		return math.Float32frombits(f32Bits[t])
+	}
+	return float32(t)
+}
+
+func f32Tok(v float32) int {
+	b := math.Float32bits(v)
+	for t, x := range f32Bits {
+		if x == b {
+			return t
+		}
+	}
+	if t := int(v); t >= len(f32Bits) && math.Float32bits(float32(t)) == b {
+		return t
+	}
+	return -1
+}
+
+func mapInts[T any](xs []int, f func(int) T) []T {
+	out := make([]T, len(xs))
+	for i, x := range xs {
+		out[i] = f(x)
+	}
+	return out
+}
+
+func unmapInts[T any](xs []T, f func(T) int) []int {
+	out := make([]int, len(xs))
+	for i, x := range xs {
+		out[i] = f(x)
+	}
+	return out
+}
+
+func iota_(n int) []int {
+	out := make([]int, n)
+	for i := range out {
+		out[i] = i
+	}
+	return out
+}
+
 type meter struct {
 	n        int // min(len keys, len values)
 	count    int
@@ -410,6 +492,38 @@ func runSlice(c *hx.Ctx, mode string, keys []int, nv int, bk *backing) (res stri
 				return out
 			}
 		}
+	case "f64": // []float64 keys, []string values
+		ks := mapInts(keys, tokF64)
+		vs := bk.valStr(nv)
+		call = sortCall(m, inRange, ks, vs, func(a, b float64) bool { return a < b })
+		finalKeys = func() []int { return unmapInts(ks, f64Tok) }
+		finalVals = func() []int {
+			return unmapInts(vs, func(s string) int { v, _ := strconv.Atoi(s[1:]); return v })
+		}
+	case "f32": // []float32 keys, []struct values
+		ks := mapInts(keys, tokF32)
+		vs := bk.valRec(nv)
+		call = sortCall(m, inRange, ks, vs, func(a, b float32) bool { return a < b })
+		finalKeys = func() []int { return unmapInts(ks, f32Tok) }
+		finalVals = func() []int { return unmapInts(vs, func(r rec) int { return r.ID }) }
+	case "ff": // []float64 keys, []float32 values
+		ks := mapInts(keys, tokF64)
+		vs := mapInts(iota_(nv), tokF32)
+		call = sortCall(m, inRange, ks, vs, func(a, b float64) bool { return a < b })
+		finalKeys = func() []int { return unmapInts(ks, f64Tok) }
+		finalVals = func() []int { return unmapInts(vs, f32Tok) }
+	case "vf64": // []int keys, []float64 values (value id = float token: ids 3 and 4 are -0 and +0, 8 and 9 NaNs)
+		ks := bk.intKeys(keys)
+		vs := mapInts(iota_(nv), tokF64)
+		call = sortCall(m, inRange, ks, vs, func(a, b int) bool { return a < b })
+		finalKeys = func() []int { return ks }
+		finalVals = func() []int { return unmapInts(vs, f64Tok) }
+	case "vf32": // []string keys, []float32 values
+		ks := bk.strKeys(keys, "enc")
+		vs := mapInts(iota_(nv), tokF32)
+		call = sortCall(m, inRange, ks, vs, func(a, b string) bool { return a < b })
+		finalKeys = func() []int { return unmapInts(ks, func(s string) int { return decShared("enc", s) }) }
+		finalVals = func() []int { return unmapInts(vs, f32Tok) }
 	case "adv":
 		seed, _ := strconv.ParseUint(arg, 10, 64)
 		ks := append([]int{}, keys...)
